@@ -42,6 +42,10 @@ pub fn chunk(
         .map(|_| leaf_writer.allocate())
         .collect::<std::io::Result<Vec<_>>>()?;
 
+    #[cfg(nomt_verif)]
+    if !other_pages.is_empty() {
+        crate::verif::probe("beatree.overflow_indirect_pages");
+    }
     let all_pages = cell.iter().cloned().chain(other_pages.iter().cloned());
     let mut to_write = other_pages.iter().cloned();
 
